@@ -90,10 +90,21 @@ def call_impl(core, case, par, int_typed=False):
         A = np.round(A).astype(np.int64)
     D = (L + L.T) / 2
     n = len(f)
-    return core.derivatives(
-        case["regime"], phase, fabric, n, A.copy(), f.copy(), D, L, np.zeros((3, 3)),
+    args = [A.copy(), f.copy(), D.copy(), L.copy(), np.zeros((3, 3))]
+    out = core.derivatives(
+        case["regime"], phase, fabric, n, args[0], args[1], args[2], args[3], args[4],
         par["p"], par["n"], par["lam"], par["M"], par["phi"],
     )
+    # the rates are a function of the arguments: the caller's arrays (an aggregate state it may evaluate again with
+    # other parameters) are left as they were
+    for name, given, kept in zip(("orientations", "fractions", "strain_rate", "velocity_gradient", "deformation_gradient_spin"), args, (A, f, D, L, np.zeros((3, 3)))):
+        if not np.array_equal(np.asarray(given, dtype=float), np.asarray(kept, dtype=float)):
+            raise InputModified(name)
+    return out
+
+
+class InputModified(Exception):
+    """derivatives changed one of the arrays it was handed"""
 
 
 def case_key(case):
